@@ -1,5 +1,6 @@
 import MemcVerif.Proofs.Policy
 import MemcVerif.Proofs.PolConc
+import MemcVerif.Proofs.PolSeq
 /-!
 # C14 — random eviction keeps stored bytes within the memory limit (sequential clause)
 
@@ -234,6 +235,19 @@ theorem C14_concurrent_from (B : Nat) (s : PSys) (now : Nat) (sched : List (Nat 
   rw [hlim] at h2
   exact Nat.le_trans h1 h2
 
+/-- **the two models of `RandomPolicy::set` are one**: the micro-step model run by a single thread, with the tape's
+    victims as the scheduler's choices, ends in the store, the counter and the answer of the sequential model — for
+    every state, limit, record and every tape the loop accepts. The sequential theorems above are therefore statements
+    about the micro-step model too, and the two correspondence suites (`policy`, `sched C14deep`) validate one model. -/
+theorem C14_models_agree (inner : MemStore) (usage limit now : Nat) (k : Key) (r : Record) (tape : List Key)
+    (hno : usage + r.len < U64)
+    (hb : ((⟨inner, usage, limit, tape, false⟩ : Policy).set now k r).1.bad = false) :
+    (oneThread inner usage limit ⟨[.set k r], .idle, []⟩ false false).run now ((0, none) :: seqSched tape) =
+      oneThread ((⟨inner, usage, limit, tape, false⟩ : Policy).set now k r).1.inner
+        ((⟨inner, usage, limit, tape, false⟩ : Policy).set now k r).1.usage limit
+        ⟨[], .idle, [resOfCas ((⟨inner, usage, limit, tape, false⟩ : Policy).set now k r).2]⟩ false false :=
+  set_agree inner usage limit now k r tape hno hb
+
 def exRec (n : Nat) : Record := Record.new (List.replicate n 0) 0 0 0
 
 /-- the witness schedule: two concurrent stores of 50 bytes into an empty store under a limit of 80, the second
@@ -268,3 +282,4 @@ end Memc
 #print axioms Memc.C14_concurrent_partial
 #print axioms Memc.C14_concurrent_from
 #print axioms Memc.C14_racy_reset_breaks_bound
+#print axioms Memc.C14_models_agree
